@@ -348,3 +348,32 @@ pub fn run_c42(tier: Tier, replay_path: Option<String>) -> i32 {
     report.set("plans", json!(summary));
     report.finish()
 }
+
+fn c28_owns(sig: &str) -> bool {
+    sig.starts_with("views:") || sig.starts_with("panic:open-read-only") || sig.starts_with("panic:search")
+}
+
+pub fn run_c28(tier: Tier, replay_path: Option<String>) -> i32 {
+    if let Some(p) = replay_path {
+        return replay(&p);
+    }
+    let mut report = Report::new(
+        "C28",
+        tier,
+        "exploration",
+        "every op sequence up to the depth bound over {put t, put e, put T, update with new text, metadata-only update, delete, commit, close+open} (with and without the instant index); at the end of each history the battery (frame table, content hashes, timeline, ranked search hits with ranges and texts for every stored word with and without sketch, vector answers) is taken on the live handle after commit, on a reopened handle, on a read-only handle and on a doctored copy (all indexes rebuilt): live, reopened and read-only must agree exactly including order; the doctored copy must agree on frames, timeline, vector answers and on the set of hits per query; after every mutation a search for every stored word before the commit must only return frames that contain the word; non-trivial = history with >= 1 frame; distinct = distinct histories",
+    );
+    let alphabet = s(&["put:t", "put:e", "put:T", "upd:0:new", "upd:0:meta", "del:0", "commit", "reopen"]);
+    let mk = |label: &str, alphabet: &Vec<String>, depth: usize, prefix: &[&str], instant: bool| HistPlan { label: label.into(), prop: "C28", alphabet: alphabet.clone(), max_depth: depth, prefix: s(prefix), instant, worker_kind: "hist", extra: json!({}), keep: Some(c28_owns), exe: None, timeout_s: 180 };
+    let plans = match tier {
+        Tier::Quick => vec![mk("fresh", &s(&["put:t", "put:e", "put:T", "commit"]), 2, &[], false), mk("after-commit", &s(&["put:t", "upd:0:new", "upd:0:meta", "del:0", "commit"]), 2, &["put:t", "put:e", "commit"], false), mk("instant", &s(&["put:t", "upd:0:new", "del:0", "commit"]), 2, &["put:t", "put:e", "commit"], true)],
+        Tier::Thorough => vec![mk("fresh", &alphabet, 3, &[], false), mk("after-commit", &alphabet, 3, &["put:t", "put:e", "commit"], false), mk("instant", &alphabet, 3, &["put:t", "put:e", "commit"], true), mk("after-chunked", &alphabet, 2, &["put:T", "put:t", "commit", "del:1", "commit"], false)],
+    };
+    let mut summary = Vec::new();
+    for p in &plans {
+        let st = explore(&mut report, p);
+        summary.push(json!({"plan": p.label, "depth": p.max_depth, "cases": st.cases, "redundant": st.redundant, "violating": st.violating}));
+    }
+    report.set("plans", json!(summary));
+    report.finish()
+}
